@@ -29,14 +29,39 @@ Theorem members_wellformed :
 Proof. exact members_wellformed_gen. Qed.
 Print Assumptions members_wellformed.
 
-(** The "if" half of "ends with the marker iff closed without error", for the
-    concurrent writer: when Close has returned nil, the stream is all members
-    followed by the marker and HasEOF holds.  The "only if" half (an unclosed
-    stream never ends in the 28 marker bytes) is NOT proved: it needs two more
-    facts about the compressor (its output is never shorter than 2 bytes and
-    its encoding of the empty payload does not end in 03 00); both are checked
-    at run time by the independent parser (sig c08:eof). *)
-Theorem eof_iff_closed_ok_partial :
+(** The stream ends with the 28-byte EOF marker iff the writer was closed
+    without error (s_eof is set exactly where Close writes the marker and
+    returns nil) - for every writer concurrency, schedule AND fault plan of
+    the underlying writer, in every reachable state; [has_eof] is what HasEOF
+    computes (haseof_iff_marker below).  "Marker => closed" needs two more
+    facts about the compressor, [codec_laws_eof]: every DEFLATE stream has at
+    least two bytes, and the encoding of the empty payload does not end in
+    03 00 (otherwise an empty data member with the default header would BE
+    the marker); both are checked against compress/flate at all levels on
+    every run (harness mode "laws"). *)
+Theorem eof_iff_closed_ok :
+  forall deflate inflate crc32, codec_laws deflate inflate crc32 -> codec_laws_eof deflate ->
+  forall lvl h, hdr_ok h ->
+  forall (fault : Z -> bool) wc script sched,
+    let st := run_conc deflate crc32 bgzf_wr_patch_mode bgzf_wr_patch_guard bgzf_wr_overflow_check lvl h fault wc script sched in
+    (has_eof (out_bytes st) = true <-> s_eof (x_api st) = true)
+    /\ (s_eof (x_api st) = true -> s_closed (x_api st) = true /\ x_err st = None).
+Proof. exact eof_iff_closed_ok_gen. Qed.
+Print Assumptions eof_iff_closed_ok.
+
+(** The same for the sequential writer, at every point of every run. *)
+Theorem eof_iff_closed_ok_seq :
+  forall deflate inflate crc32, codec_laws deflate inflate crc32 -> codec_laws_eof deflate ->
+  forall lvl h, hdr_ok h ->
+  forall script fuel,
+    let s := run_writer fuel script in
+    has_eof (wr_out deflate crc32 lvl h s) = true <-> s_eof s = true.
+Proof. exact seq_eof_iff_gen. Qed.
+Print Assumptions eof_iff_closed_ok_seq.
+
+(** Close returned nil: the stream is all members followed by the marker and
+    decodes to everything written. *)
+Theorem closed_stream_complete :
   forall deflate inflate crc32, codec_laws deflate inflate crc32 ->
   forall lvl h, hdr_ok h ->
   forall wc script sched,
@@ -47,7 +72,7 @@ Theorem eof_iff_closed_ok_partial :
     /\ gunzip_multi inflate crc32 (out_bytes st) = Some (written script)
     /\ has_eof (out_bytes st) = true.
 Proof. exact close_durable_gen. Qed.
-Print Assumptions eof_iff_closed_ok_partial.
+Print Assumptions closed_stream_complete.
 
 (** The bytes do not depend on the writer concurrency nor on the schedule. *)
 Theorem output_independent_of_wc :
